@@ -209,7 +209,7 @@ def run(ctx):
     onex = own_method(ctx, TESTCASE, "TestCase", "onException")
     quiet = None
     for n in walk_shallow(onex, include_self=False):
-        if isinstance(n, ast.Compare) and isinstance(n.ops[0], ast.NotIn) and isinstance(n.comparators[0], (ast.List, ast.Tuple, ast.Set)):
+        if isinstance(n, ast.Compare) and isinstance(n.ops[0], (ast.NotIn, ast.In)) and isinstance(n.comparators[0], (ast.List, ast.Tuple, ast.Set)):
             quiet = {resolve_class_expr(e)[0] for e in n.comparators[0].elts}
     ctx.check("R-HANDLER-TABLE", "onException suppresses tracebacks for exactly the three signal classes", onex,
               quiet == {"SkipTest", "_UnexpectedSuccess", "_ExpectedFailure"},
